@@ -106,6 +106,44 @@ def _shape(kname, optional, release, due, horizon, context, cfg=None):
     return Shape(name, build, obligations, solver_cfg=cfg or {})
 
 
+# ---- the base rules of every task survive every other element, in every role (class-generic, concrete problem) ----
+ROLES = {
+    "plain": lambda mk: mk("x1"),
+    "negated": lambda mk: ps.Not(name="role", constraint=mk("x1")),
+    "alternative": lambda mk: ps.Or(name="role", list_of_constraints=[mk("x1"), z3.Bool("free_atom")]),
+    "implied": lambda mk: ps.Implies(name="role", condition=z3.Bool("free_cond"), list_of_constraints=[mk("x1")]),
+}
+
+
+def class_context_shape(cname, role):
+    """the small problem of C18's sweep (five tasks, two workers, selections, a buffer) plus one instance of the
+    class, declared plainly or only as an operand: start >= 0, end <= horizon, end - start = duration for every
+    scheduled task"""
+    name = f"every_class/{cname}/{role}"
+
+    def build(P):
+        from checks import c10, c18
+        pb = ps.SchedulingProblem(name="ctx", horizon=12)
+        e = c18._env()
+        ROLES[role](lambda nm: c10._make_instance(cname, e, nm))
+        return Ctx(problem=pb, env=e)
+
+    def obligations(ctx):
+        obs = []
+        H = ctx.problem._horizon
+        for key, dur in (("t1", 2), ("t2", 2), ("t3", 2), ("o1", 1), ("o2", 1)):
+            t = ctx.env[key]
+            g = t._scheduled if z3.is_expr(t._scheduled) else True
+            obs.append(Ob(f"{PROP}/{name}/{t.name}_inside_the_horizon_with_its_duration", "sound",
+                          clause=z3.And(t._start >= 0, t._end <= H, H <= 12, t._end - t._start == dur), guard=g, extra={"vacuous_ok": True}))
+        return obs
+
+    sh = Shape(name, build, obligations)
+    sh.grid = False
+    return sh
+
+
+
 def shapes(tier):
     out = []
     for kname, optional, release, due, horizon in itertools.product(
@@ -118,6 +156,12 @@ def shapes(tier):
             out.append(_shape(kname, optional, True, "soft", True, context))
         else:
             out.append(_shape(kname, optional, True, "deadline", True, context))
+    from checks import c05 as _c05
+    for cname in _c05._constraint_classes():
+        for role in (ROLES if tier == "thorough" else ("negated", "alternative")):
+            if role != "plain" and cname == "ForceApplyNOptionalConstraints":
+                continue
+            out.append(class_context_shape(cname, role))
     # solver configurations
     cfgs = [dict(debug=True), dict(logics="QF_LIA"), dict(parallel=True), dict(random_values=True)]
     if tier == "thorough":
